@@ -1555,6 +1555,11 @@ class DiskRefsContainer(RefsContainer):
             if ref == HEADREF:
                 # Never pack HEAD
                 continue
+            if is_per_worktree_ref(ref):
+                # refs/bisect/, refs/worktree/ and refs/rewritten/ belong to
+                # one worktree; packed-refs is shared by all of them (git
+                # never packs these either)
+                continue
             if all or ref.startswith(LOCAL_TAG_PREFIX):
                 contents = self.read_ref(ref)
                 if not contents or contents.startswith(SYMREF):
